@@ -2,7 +2,7 @@
 import kcp_common as K
 
 META = {
-    "enabled": False,
+    "enabled": True,
     "engine": "kcp",
     "technique": "Coq totality + invariant proof with Go panics modelled as values, for arbitrary byte strings; differential replay on malformed streams under recover()",
     "level_text": "Every model function returns Panic wherever the Go code would fault on a slice bound (pool buffers of mtuLimit bytes, the 3*(mtu+24) staging buffer). Theorem: at every reachable state Input of ANY byte list of ANY length returns Ok, keeps the invariant (hence the C04 buffering bounds, each stored segment <= mtuLimit bytes) and accounts for pending acks; the same for every other call over every operation sequence. Tied to kcp.go by replaying malformed streams (field mutations to boundary values, truncations at every offset class, appended bogus segments, random bytes incl. > 1500-byte datagrams for the raw core) on the real core under recover(): a real panic where the model says Ok, or vice versa, is a disagreement.",
